@@ -1586,7 +1586,9 @@ class Container:
             # difference: it is the share of the other one that the concentration states ('1 pM' from 1 M in '1 kL' is
             # 1e-6 mL out of 1e6 mL).
             # (eliminated by hand through the concentration row - whatever the quantity row is dominated by)
-            if 0 < x <= 1e-3 * y and a[0][0] != 0 and a[1][1] - a[1][0] * a[0][1] / a[0][0] != 0:
+            # (... also when the difference came out as exactly zero or below: what is infeasible stays so, by the sign
+            # of the ratio)
+            if abs(x) <= 1e-3 * y and a[0][0] != 0 and a[1][1] - a[1][0] * a[0][1] / a[0][0] != 0:
                 y = b[1] / (a[1][1] - a[1][0] * a[0][1] / a[0][0])
                 x = -a[0][1] * y / a[0][0]
         if x < 0 or y < 0:
